@@ -26,6 +26,7 @@ func runC12(opt *Options) int {
 			{Name: "K6.strings", Pkg: "config", Harness: "VerifHarness_C12_Strings", Unwind: 64, Stub: stub, SetInts: ints},
 			{Name: "K6.chain", Pkg: "config", Harness: "VerifHarness_C12_Chain", Unwind: 64, Stub: stub, SetInts: ints},
 			{Name: "K6.wronglevel", Pkg: "config", Harness: "VerifHarness_C12_WrongLevel", Unwind: 64, Stub: stub},
+			kernelConverterLines("c12"),
 			{Name: "K6.unknownname", Pkg: "config", Harness: "VerifHarness_C12_UnknownName", Unwind: 64, Stub: stub, SetInts: ints},
 			{Name: "K16.submethod", Pkg: "generator", Harness: "VerifHarness_C12_SubMethod", Unwind: 16, E2E: "c12", Stub: []string{"(*github.com/jmattheis/goverter/generator.generator).CallMethod", "(*github.com/jmattheis/goverter/generator.generator).buildMethod"}},
 		},
